@@ -267,6 +267,31 @@ def e_climate_rainfall(case, t):
            event_threshold=ev, silence_level=3, **kw)
 
 
+@entry("climate_rainfall_spearman_mask_shape", (("N", 6), ("T", 10)),
+       variants=3, kernels=("climate.spearman_corr",))
+def e_rainfall_mask_shape(case, t):
+    """RainfallClimateNetwork.spearman_corr(final_mask, anomaly) with a mask
+    that has fewer rows / columns than the anomaly, or a transposed one:
+    rejected, or answered from inside the arrays."""
+    from pyunicorn.climate import RainfallClimateNetwork
+    N, T = case["d"]
+    if N < 3 or T < 4:
+        return
+    ok, data = t.call("ClimateData", _climate_data, case, N, T)
+    if not ok:
+        return
+    ok, net = t.call("RainfallClimateNetwork", RainfallClimateNetwork, data,
+                     threshold=0.3, silence_level=3)
+    if not ok:
+        return
+    rs = _rs(case, 3)
+    anomaly = rs.rand(N, T)
+    shape = ((N - 1, T), (N, T - 2), (T, N))[int(case["p"]) % 3]
+    mask = rs.rand(*shape) > 0.5
+    t.call("spearman_corr(mask %s, anomaly %s)" % (shape, (N, T)),
+           net.spearman_corr, mask, anomaly)
+
+
 # ---- core: Network ---------------------------------------------------------
 
 def _network(case, N, cls=None, **kw):
@@ -528,6 +553,35 @@ def e_res(case, t):
             if i < N:
                 t.call("vertex_current_flow_betweenness(%d)" % i,
                        net.vertex_current_flow_betweenness, i)
+    else:
+        t.call("edge_current_flow_betweenness",
+               net.edge_current_flow_betweenness)
+
+
+@entry("res_adjacency_replaced_then_cfb", (("N", 6), ("M", 8)), variants=2,
+       kernels=("core._vertex_current_flow_betweenness",
+                "core._edge_current_flow_betweenness"))
+def e_res_resized(case, t):
+    """The public adjacency setter gives the network another size; the
+    stored admittance / R still belong to the old one.  The kernels are
+    handed N together with those arrays: rejected with an exception, or
+    answered from inside the arrays."""
+    N, M = case["d"]
+    if N < 2 or M < 2:
+        return
+    ok, net = t.call("ResNetwork", _resnet, case, N)
+    if not ok:
+        return
+    A2 = graph(case, M, density=0.7)
+
+    def replace():
+        net.adjacency = A2
+    ok, _ = t.call("adjacency_setter", replace)
+    if not ok:
+        return
+    if case["p"] % 2:
+        t.call("vertex_current_flow_betweenness",
+               net.vertex_current_flow_betweenness, (M - 1) % max(1, net.N))
     else:
         t.call("edge_current_flow_betweenness",
                net.edge_current_flow_betweenness)
